@@ -406,6 +406,8 @@ func RunC04(c *Ctx) {
 		idx++
 	}
 	r.Count("scenario_cases", idx)
+	// engine B: real processes, injected delays, observer, kill -9 (cross-validation)
+	runEngB(c, c.N(16, 300))
 	sampleEng(c, e)
 }
 
